@@ -412,14 +412,16 @@ def check_loop_generators_uniform(ctx):
             ctx.undecided('R2-move-runs-as-a-field', (cg.file, 'CodeGenerator.' + mname), mname, 'generator not found')
             continue
         ts = [t for t in repo.templates() if t.func.id == fi.id]
-        branches = [n for n in ast.walk(fi.node) if isinstance(n, (ast.If, ast.IfExp)) and ('isinstance' in unparse(n.test) or 'type(' in unparse(n.test) or '.is_alignment' in unparse(n.test) or 'Move' in unparse(n.test))]
+        # the generator and the helpers of the code generator it calls for its holes
+        members = [f for f in repo.reach(fi, depth=2) if f is fi or (f.cls is cg and f.qual.split('.')[-1].startswith('generate_code_for_') and f.qual.split('.')[-1] not in ('generate_code_for_loop_pack', 'generate_code_for_loop_unpack'))]
+        branches = [n for f_ in members for n in ast.walk(f_.node) if isinstance(n, (ast.If, ast.IfExp)) and ('isinstance' in unparse(n.test) or 'type(' in unparse(n.test) or '.is_alignment' in unparse(n.test) or 'Move' in unparse(n.test))]
         if len(ts) == 1 and not branches:
             ctx.holds('R2-move-runs-as-a-field', fi, '%s: one block template for every member of the run' % mname, 'moves / alignments are executed by Move.%s, with the reference point' % ('pack' if 'pack' in mname.split('_')[-1] and 'unpack' not in mname else 'unpack'), fi.node.lineno, clause='e')
         elif not branches and len(ts) == 0:
             # the block template lives elsewhere (a shared helper): nothing here special-cases a kind
             ctx.undecided('R2-move-runs-as-a-field', fi, '%s: no block template in this function' % mname, 'the per-field block is produced by another function; the rule cannot see that it is the same for every member of the run', fi.node.lineno, clause='e')
         else:
-            ctx.violation('R2-move-runs-as-a-field', fi, '%s: %d block templates, %d kind tests' % (mname, len(ts), len(branches)), 'the generated code special-cases some field kinds instead of calling their own pack / unpack: inlined positioning ignores the reference point on one side only', fi.node.lineno, clause='e')
+            ctx.violation('R2-move-runs-as-a-field', fi, '%s: %d block templates, %d kind tests (%s)' % (mname, len(ts), len(branches), unparse(branches[0].test)[:80] if branches else ''), 'the generated code special-cases some field kinds instead of calling their own pack / unpack: inlined positioning ignores the reference point on one side only', fi.node.lineno, clause='e')
 
 
 def check(ctx):
